@@ -632,7 +632,7 @@ func e16TypedCloseCase(seed uint64, n int, partial string) Case {
 func init() {
 	register("E16", func(tier string, seed uint64) []Case {
 		var cases []Case
-		reps := tierPick(tier, 3, 250)
+		reps := tierPick(tier, 3, 2000)
 		for rep := 0; rep < reps; rep++ {
 			for _, hk := range []string{"instant", "fast", "slow", "blocked"} {
 				for _, cl := range []string{"none", "before-ready", "mid-stream", "during-callback", "publisher-before-ready", "cache-stopped-before-ready"} {
